@@ -233,7 +233,10 @@ impl Pattern {
         match self {
             Pattern::Static(s) => {
                 let size = s.len();
-                if bytes.len() >= size && *s == unsafe {bytes.get_unchecked(..size)} {
+                if bytes.len() >= size && *s == unsafe {bytes.get_unchecked(..size)}
+                // ...and the match ends at the end of a segment:
+                // `/users` matches `/users`, `/users/42`, NOT `/users2`
+                && (bytes.len() == size || *unsafe {bytes.get_unchecked(size)} == b'/') {
                     Some(unsafe {bytes.get_unchecked(size..)})
                 } else {
                     None
